@@ -48,19 +48,6 @@ def stepCtor (cx : Ctx) (op : String) (args : List String) : Option MOut :=
     | .ok t => { cx.ofTD t with drops := cx.dr old }
     | .error e => { cx.fail e with drops := cx.dr extraDropsOnPanic }
   match op, args with
-  | "new", [c, r] => do
-    let c ← nat? c; let r ← nat? r
-    pure (fromRes (TD.new cx.capLimit c r 0) [])
-  | "init", [c, r, v] => do
-    let c ← nat? c; let r ← nat? r; let v ← nat? v
-    let res := TD.init cx.capLimit c r (cx.v v)
-    -- `vec![v; 0]` drops `v`; on a panic the harness's `v` is dropped too
-    match res with
-    | .ok t => pure { cx.ofTD t with drops := cx.dr (old ++ (if t.data.isEmpty then [cx.v v] else [])) }
-    | .error e => pure { cx.fail e with drops := cx.dr [cx.v v] }
-  | "from_vec", [c, r, l] | "from_box", [c, r, l] => do
-    let c ← nat? c; let r ← nat? r; let l ← parseList l
-    pure (fromRes (TD.fromVec c r (cx.vs l)) (cx.vs l))
   | "default", [] => pure (fromRes (pure TD.default) [])
   | "with_capacity", [n] => do
     let n ← nat? n
